@@ -1,4 +1,5 @@
 import Batteries.Tactic.Alias
+import GenlmModel.Proofs.Subst
 import GenlmModel.Proofs.Regex
 import GenlmModel.Proofs.Mask
 import GenlmModel.Proofs.Wfsa2
@@ -8,4 +9,9 @@ alias terminal_matcher_decides_denotation := Genlm.Re.accepts_iff
 alias rule_grammar_sentences_decided := Genlm.derivesB_spec
 alias automaton_to_grammar := Genlm.toCfgRight_spec
 alias byte_conversion := Genlm.toBytes_Pk
+/-- THE substitution theorem (derivation level): the merged grammar derives s iff s is the concatenation of matches
+of a terminal sequence derivable in the rule grammar -/
+alias substitution_spec := Genlm.substitution_spec
+/-- … with `%ignore`: each terminal optionally preceded by one match of an ignored terminal -/
+alias substitution_ignore_spec := Genlm.substitution_ignore_spec
 end Genlm.Props.C19
